@@ -27,11 +27,25 @@ def finals_of(rec_final):
     return [{"sched": bool(f["sched"]), "start": int(f["start"]), "end": int(f["end"])} for f in rec_final]
 
 
+RELATE_CHUNK = 15000      # obligations per TLC run (a quarter of a million in one run neither fit the heap nor the time limit)
+
+
 def decide(obligations, timeout=1800):
     """obligations: list of dict(id, left, right, shift=0, levs=None, revs=None).
     Returns dict id -> (differing task positions, first differing event index), TlcResult."""
     if not obligations:
         return {}, None
+    if len(obligations) > RELATE_CHUNK:
+        out, last = {}, None
+        gen = dis = 0
+        for i in range(0, len(obligations), RELATE_CHUNK):
+            part, res = decide(obligations[i:i + RELATE_CHUNK], timeout=timeout)
+            out.update(part)
+            gen, dis, last = gen + res.generated, dis + res.distinct, res
+        last.generated, last.distinct = gen, dis
+        if len(out) != len(obligations):
+            raise MachineryError("Relate: %d verdicts for %d obligations (ids not unique?)" % (len(out), len(obligations)))
+        return out, last
     fd, path = tempfile.mkstemp(prefix="sprel_", suffix=".ndjson")
     try:
         with os.fdopen(fd, "w") as f:
